@@ -466,3 +466,67 @@ func C14_LengthPrefixBoundaries() {
 	}
 	verif.Reach("two-byte-props-prefix", len(t.Properties) >= 128)
 }
+
+func init() {
+	reg("C14_TokenDecodeLongVarints", C14_TokenDecodeLongVarints)
+	reg("C14_MetaDataDecodeLongVarints", C14_MetaDataDecodeLongVarints)
+	reg("C14_RolesDecodeLongVarints", C14_RolesDecodeLongVarints)
+}
+
+// longVarintBuf is a structured adversarial buffer the short exhaustive buffers cannot reach:
+// optionally one complete leading field, then an arbitrary tag byte followed by a varint of 1, 2,
+// 5, 9 or 10 bytes (1..10 thorough) whose 7-bit groups are arbitrary - so declared lengths,
+// scalars and skipped fields up to and beyond 2^63 are in range - then 0..2 arbitrary bytes.
+func longVarintBuf(lead []byte) []byte {
+	var buf []byte
+	if verif.Bool("lead") {
+		buf = append(buf, lead...)
+	}
+	buf = append(buf, verif.U8("tag"))
+	ms := []int{1, 2, 5, 9, 10}
+	if verif.Thorough() {
+		ms = []int{1, 2, 3, 4, 5, 6, 7, 8, 9, 10}
+	}
+	m := ms[verif.Choose("varint.len", len(ms))]
+	for i := 0; i < m; i++ {
+		b := verif.U8("varint.byte")
+		if i < m-1 {
+			b |= 0x80
+		} else {
+			b &= 0x7f
+		}
+		buf = append(buf, b)
+	}
+	buf = append(buf, verif.BytesLen("tail", 0, 2)...)
+	return buf
+}
+
+func C14_TokenDecodeLongVarints() {
+	buf := longVarintBuf([]byte{0x08, 0x01})
+	verif.AllocBound(len(buf) + 2)
+	u := &esdt.ESDigitalToken{}
+	err := u.Unmarshal(buf)
+	verif.Reach("accepted", err == nil)
+	verif.Reach("rejected", err != nil)
+	verif.ObserveBool("ok", err == nil)
+}
+
+func C14_MetaDataDecodeLongVarints() {
+	buf := longVarintBuf([]byte{0x08, 0x01})
+	verif.AllocBound(len(buf) + 2)
+	u := &esdt.MetaData{}
+	err := u.Unmarshal(buf)
+	verif.Reach("accepted", err == nil)
+	verif.Reach("rejected", err != nil)
+	verif.ObserveBool("ok", err == nil)
+}
+
+func C14_RolesDecodeLongVarints() {
+	buf := longVarintBuf([]byte{0x0a, 0x00})
+	verif.AllocBound(len(buf) + 2)
+	u := &esdt.ESDTRoles{}
+	err := u.Unmarshal(buf)
+	verif.Reach("accepted", err == nil)
+	verif.Reach("rejected", err != nil)
+	verif.ObserveBool("ok", err == nil)
+}
